@@ -1,20 +1,37 @@
 package space
 
 import (
-	"github.com/marekgalovic/anndb/math";
-	"github.com/marekgalovic/anndb/simd/sse";
+	"unsafe"
+
+	"github.com/marekgalovic/anndb/math"
+	"github.com/marekgalovic/anndb/simd/sse"
 )
 
-type sseSpaceImpl struct {}
+type sseSpaceImpl struct{}
+
+// The SSE kernels load their operands with aligned moves: on data that does not start at a multiple of
+// 16 bytes (any sub-slice, many allocation sizes) they fault. Such operands go to the portable kernels.
+func sseAligned(a, b math.Vector) bool {
+	return uintptr(unsafe.Pointer(&a[0]))%16 == 0 && uintptr(unsafe.Pointer(&b[0]))%16 == 0
+}
 
 func (sseSpaceImpl) EuclideanDistance(a, b math.Vector) float32 {
-    return sse.EuclideanDistance(a, b)
+	if !sseAligned(a, b) {
+		return nativeSpaceImpl{}.EuclideanDistance(a, b)
+	}
+	return sse.EuclideanDistance(a, b)
 }
 
 func (sseSpaceImpl) ManhattanDistance(a, b math.Vector) float32 {
-    return sse.ManhattanDistance(a, b)
+	if !sseAligned(a, b) {
+		return nativeSpaceImpl{}.ManhattanDistance(a, b)
+	}
+	return sse.ManhattanDistance(a, b)
 }
 
 func (sseSpaceImpl) CosineDistance(a, b math.Vector) float32 {
-    return sse.CosineDistance(a, b)
+	if !sseAligned(a, b) {
+		return nativeSpaceImpl{}.CosineDistance(a, b)
+	}
+	return sse.CosineDistance(a, b)
 }
